@@ -4,6 +4,7 @@ import (
 	"bytes"
 	"encoding/json"
 	"fmt"
+	"os"
 	"sync/atomic"
 
 	"github.com/willabides/rjson"
@@ -14,6 +15,11 @@ import (
 
 func init() {
 	Registry["C17"] = c17
+	Replayers["C17/trees"] = func(rp *eng.Replay) (bool, string) {
+		r := eng.NewRun("C17", "quick", 0, os.DevNull, os.TempDir(), os.DevNull)
+		checkCompatTree(r, rp.InputB64)
+		return r.Violations() > 0, fmt.Sprintf("%d violations on this document", r.Violations())
+	}
 	Replayers["C17"] = func(rp *eng.Replay) (bool, string) {
 		bad, exp, got := checkCompat(rp.InputB64)
 		return bad != "", fmt.Sprintf("%s expected %s got %s", bad, exp, got)
@@ -178,48 +184,9 @@ func c17Trees(r *eng.Run) int {
 	all := ds.All()
 	var n, collisions int64
 	eng.Parallel(len(all), func(i int) {
-		text := []byte(all[i])
 		atomic.AddInt64(&n, 1)
-		v, _, err := rjson.ReadValue(text)
-		if err != nil {
-			return
-		}
-		frozen := cloneTree(v)
-		var got interface{}
-		switch x := v.(type) {
-		case []interface{}:
-			got = rjson.StdLibCompatibleSlice(x)
-		case map[string]interface{}:
-			got = rjson.StdLibCompatibleMap(x)
-		case string:
-			got = rjson.StdLibCompatibleString(x)
-		default:
-			return
-		}
-		rp := func(bad, exp, g string) {
-			r.Violation(eng.Replay{Engine: "trees", Entry: "StdLibCompatibleSlice/Map", Sig: bad + "/" + shortSig(text), InputB64: text, Expected: exp, Got: g})
-		}
-		if !ref.SameTree(v, frozen) {
-			rp("argument-modified", treeStr(frozen), treeStr(v))
-			return
-		}
-		want, collide := ref.SanitizeTree(frozen)
-		if collide {
+		if checkCompatTree(r, []byte(all[i])) {
 			atomic.AddInt64(&collisions, 1)
-			// keys collide after replacement: which member wins is unspecified; compare shapes only
-			return
-		}
-		if !ref.SameTree(got, want) {
-			rp("result", treeStr(want), treeStr(got))
-			return
-		}
-		if sv, _, ok := stdTree(text); ok && !ref.SameTree(got, sv) {
-			rp("composed-with-ReadValue!=encoding/json", treeStr(sv), treeStr(got))
-		}
-		// the result must be a copy: mutate it and look at the argument again
-		mutateTree(got)
-		if !ref.SameTree(v, frozen) {
-			rp("result-aliases-argument", treeStr(frozen), treeStr(v))
 		}
 	})
 	r.Set("tree_texts", int(n))
@@ -260,4 +227,51 @@ func classRepresentatives() []byte {
 		}
 	}
 	return out
+}
+
+// checkCompatTree is the tree-level oracle of C17 on one document; it reports whether the
+// comparison was skipped because keys collide after replacement.
+func checkCompatTree(r *eng.Run, text []byte) (collided bool) {
+	v, _, err := rjson.ReadValue(text)
+	if err != nil {
+		return collided
+	}
+	frozen := cloneTree(v)
+	var got interface{}
+	switch x := v.(type) {
+	case []interface{}:
+		got = rjson.StdLibCompatibleSlice(x)
+	case map[string]interface{}:
+		got = rjson.StdLibCompatibleMap(x)
+	case string:
+		got = rjson.StdLibCompatibleString(x)
+	default:
+		return collided
+	}
+	rp := func(bad, exp, g string) {
+		r.Violation(eng.Replay{Engine: "trees", Entry: "StdLibCompatibleSlice/Map", Sig: bad + "/" + shortSig(text), InputB64: text, Expected: exp, Got: g})
+	}
+	if !ref.SameTree(v, frozen) {
+		rp("argument-modified", treeStr(frozen), treeStr(v))
+		return collided
+	}
+	want, collide := ref.SanitizeTree(frozen)
+	if collide {
+		collided = true
+		// keys collide after replacement: which member wins is unspecified; compare shapes only
+		return collided
+	}
+	if !ref.SameTree(got, want) {
+		rp("result", treeStr(want), treeStr(got))
+		return collided
+	}
+	if sv, _, ok := stdTree(text); ok && !ref.SameTree(got, sv) {
+		rp("composed-with-ReadValue!=encoding/json", treeStr(sv), treeStr(got))
+	}
+	// the result must be a copy: mutate it and look at the argument again
+	mutateTree(got)
+	if !ref.SameTree(v, frozen) {
+		rp("result-aliases-argument", treeStr(frozen), treeStr(v))
+	}
+	return collided
 }
